@@ -26,6 +26,8 @@ struct SharedTcpPort {
     sessions: Mutex<HashMap<String, Weak<IceTransportInner>>>,
     ref_count: AtomicUsize,
     shutting_down: AtomicBool,
+    /// wakes the accept loop when the last registration goes away
+    shutdown: tokio::sync::Notify,
 }
 
 impl SharedTcpPort {
@@ -35,6 +37,7 @@ impl SharedTcpPort {
             sessions: Mutex::new(HashMap::new()),
             ref_count: AtomicUsize::new(0),
             shutting_down: AtomicBool::new(false),
+            shutdown: tokio::sync::Notify::new(),
         }
     }
 
@@ -46,7 +49,12 @@ impl SharedTcpPort {
                 if port.shutting_down.load(Ordering::Relaxed) {
                     break;
                 }
-                let accept = listener.accept().await;
+                // accept() alone would keep the task (and the bound port) alive
+                // until the next inbound connection after the last user left.
+                let accept = tokio::select! {
+                    _ = port.shutdown.notified() => break,
+                    accept = listener.accept() => accept,
+                };
                 match accept {
                     Ok((stream, peer)) => {
                         let port = Arc::clone(&port);
@@ -91,6 +99,7 @@ impl Drop for SharedTcpRegistration {
         let prev = self.port.ref_count.fetch_sub(1, Ordering::SeqCst);
         if prev == 1 {
             self.port.shutting_down.store(true, Ordering::SeqCst);
+            self.port.shutdown.notify_one();
             registry().lock().remove(&self.listen_key);
         }
     }
